@@ -21,8 +21,11 @@
    Mined: the engine's own MineBlock produced a block; the same verdict is demanded of what the miner packaged.
    Identity: payload[x] names the SENDER-signed content of x; two different transactions x # y with payload[x] = payload[y] differ
    only in what their sender did not sign - how[x] says in what: "sig" (the bytes of the signature: s -> n-s), "add" (a signature
-   appended by somebody else) or "gas" (a reimbursement transaction priced and signed again by its gas payer).  All are replays
-   of one signed payload.
+   appended by somebody else), "gas" (a reimbursement transaction priced and signed again by its gas payer) or "car" (x is y written
+   again by somebody else in another form of its OWN carrier: an optional / defaulted / derivable member of its RLP / JSON - gasPayer,
+   to, version, empty members - dropped, defaulted or written redundantly, the signature bytes being those of y; the 4th argument of
+   Offer / 2nd of Admit names the form).  All are replays of one signed payload: a "car" variant is refused, or it is y itself to the
+   node (same transaction, refused where y is refused) - no deviation admits it under another identity.
    Deviations listed in known_findings.txt (AllowedDev) are accepted only in exactly their form and reported by UseDev:
    a replay through another signature encoding only under Dev_TxMalleableEncoding, through an appended signature only under
    Dev_TxExtraSignature, through re-pricing only under Dev_RepricedReimbursement. *)
@@ -31,7 +34,7 @@ CONSTANT AllowedDev
 VARIABLES exp, subs, payload, how, blocks, stable, dead
 tvars == <<exp, subs, payload, how, blocks, stable, dead, l>>
 Life == 1800
-Pays == {"t", "u", "r"}                                        \* payloads whose effect is observable as a balance
+Pays == {"t", "u", "r", "n"}                                        \* payloads whose effect is observable as a balance
 RECURSIVE AncIn(_, _)
 AncIn(bl, b) == IF b = 0 THEN {} ELSE {b} \cup AncIn(bl, bl[b].parent)
 Usable == {b \in 1..Len(blocks) : blocks[b].acc /\ b \notin dead /\ stable \in AncIn(blocks, b)}
